@@ -25,6 +25,21 @@ CLAIMED = {
                             "are covered by the oracle only."),
         technique="Lean 4 proof (list induction, omega) over hand model + differential correspondence with the real methods",
         design="5/C05"),
+    "C07": dict(
+        text=("Lean theorem (any field, any tables, any weights): a local explicit cell update - exchange with the listed "
+              "neighbours weighted by the two cell types, a donor (swirl) term, a typed source term - commutes with every "
+              "permutation that preserves types, maps neighbour lists to neighbour lists and commutes with the donor map, "
+              "for one step and by induction for any sweep.  For every dumped ring count the six rotations and the mirror, "
+              "derived from the published centroid coordinates (not from the numbering), are certified by the Lean kernel "
+              "to be such automorphisms of the tables the running code builds (types, neighbours, clockwise and "
+              "counter-clockwise swirl donors - the mirror exchanges them -, pin incidence).  Real runs with rotated / "
+              "mirrored asymmetric power maps (single assemblies, both wire directions, 1-2 ducts) and 60-degree rotations "
+              "of whole 7-position cores (holes, all gap models) are compared field by field."),
+        note=COMMON_NOTE + ("T2 permutation + table certificates; the generic theorem covers the interior coolant update "
+                            "(whose local form is established by C04's class analysis); duct, bypass, gap and pin parts and "
+                            "19-position cores are covered by the oracle only."),
+        technique="Lean 4 proof (list permutation sums, induction) + kernel-decided automorphism certificates + metamorphic oracle",
+        design="5/C07"),
     "C08": dict(
         text=("Exhaustive over ring counts 2..20 (as the property states): the subchannel/pin tables the running code "
               "builds are dumped and the Lean kernel decides (decide +kernel, no axioms beyond the standard three) type "
